@@ -332,7 +332,21 @@ def c19_10(ctx):
     return mutable_default_obligation(ctx, ["network", "compactfilter", "bloomfilter", "merkleblock"], "a second message repeats the first one's entries and its count")
 
 
+def c19_11(ctx):
+    """CTOR-FORWARD: a parsed message keeps the network (and every other argument) it was parsed under"""
+    from sa.forward import forward_obligation
+    return forward_obligation(ctx, ["network", "compactfilter", "merkleblock", "block", "bloomfilter"], "an envelope parsed from testnet bytes re-serialises with the mainnet magic")
+
+
+def c19_12(ctx):
+    """the integer codec primitives the message layouts are written with (shared with C04.11)"""
+    from rules.C04 import helper_codec_faithful
+    return helper_codec_faithful(ctx)
+
+
 OBLIGATIONS = [
+    ("C19.12", "CODEC primitives", c19_12),
+    ("C19.11", "CTOR-FORWARD", c19_11),
     ("C19.10", "MUTABLE-DEFAULT", c19_10),
     ("C19.1", "GUARD", c19_1),
     ("C19.2", "GUARD", c19_2),
